@@ -1,6 +1,7 @@
 import JsightVerif.Model.Project
 import JsightVerif.Gen.Facts
 import JsightVerif.Props.C12
+import JsightVerif.Proofs.ScanNest
 /-
   C01 — building is total.  What is *proved* here is the scanner layer: for every file and every
   answer of the schema oracle the scanner never reaches one of its own crash sites that concern
@@ -41,5 +42,29 @@ theorem C01_scanner_no_stack_crash_any_fuel (env : Env) (fuel n : Nat) (site : S
   have := C12.C12_stack_discipline env fuel n _ h
   simp only [StackFault, not_or] at this
   exact this
+
+/-! ### the build stage never dereferences nil (Model/Build.lean, tied by op `cat`) -/
+
+section Build
+open JsightVerif.Model.Build
+
+/-- **C01 (build stage), every project**: if the scanning stage accepts a project, then whatever the
+    macros, ban set and file contents, a failure of the build stage is an *error value*: the model
+    never takes one of the branches where the Go code would dereference a nil pointer
+    (`c.Info.Title` without an INFO, `d.Parent.Type()` at root level).  The reason is the regenerated
+    context table: every directive entered the tree through `attach`, so Title/Version sit under INFO
+    (which has been added before them), Headers/Body/Description are never at root level, and MACRO
+    occurs at root level only (`title_version_only_in_info`, `not_at_root`, `macro_only_at_root`:
+    re-checked by the kernel whenever directive/enumeration.go changes). -/
+theorem C01_build_no_nil_deref (fsys : FileSys) (n : Nat) (c c' : Core) (hc : c.ctx = Ctx.empty)
+    (hrun : Core.run fsys n c = .ok c') (rootFile : Bytes) (banned : List Kind) (content : Bytes → Bytes) (e : PErr)
+    (h : build c'.ctx.forest rootFile banned content = .error e) : e.panic = false :=
+  build_noPanic _ _ _ _ _ (wn_macrosAtRoot _ (scan_forest_wn fsys n c c' hc hrun)) h
+
+/-- non-vacuity: the nil-dereference branches exist in the model and are what the theorem excludes -/
+example : (nilDeref default "Info is nil").panic = true := rfl
+example : (kwErr default "x").panic = false := rfl
+
+end Build
 
 end JsightVerif.Props.C01
